@@ -732,6 +732,12 @@ func allowedWriteGuardD(p *Program, f Fact, depth int) bool {
 			}
 		}
 	}
+	if ex, ok := f.Cond.(*ssa.Extract); ok {
+		// the `ok` of a range iteration: leaving a range loop by exhaustion is no condition on the write
+		if _, isNext := ex.Tuple.(*ssa.Next); isNext && ex.Index == 0 {
+			return true
+		}
+	}
 	if _, ok := f.Cond.(*ssa.Extract); ok {
 		// comma-ok / boolean second results of lookups
 		if call, _ := asCall(f.Cond); call != nil {
